@@ -37,6 +37,54 @@ struct SetOps<S, E> {
     from_json: fn(&str) -> Result<S, String>,
     elem_bytes: fn(&E) -> Vec<u8>,
     elem_json: fn(&E) -> Result<String, String>,
+    /// the element decoded from element bytes / element JSON (None: the type has no such constructor)
+    elem_from_bytes: fn(Vec<u8>) -> Option<E>,
+    elem_from_json: fn(&str) -> Option<E>,
+}
+
+/// CBOR of the same item with every tag-258 wrapper removed (the pre-Conway encoding of nested sets)
+fn legacy_encoding(bytes: &[u8]) -> Option<Vec<u8>> {
+    let mut n = cbor::parse_document(bytes).ok()?;
+    let mut nc = crate::mutate::NonCanon { widen: 0, indef: 0, rotate_maps: 0, chunk: 0, strip_set_tags: true, features: Vec::new() };
+    let zero = [0u8; 1];
+    let mut t = Tape::new(&zero);
+    nc.apply(&mut n, &mut t);
+    let out = cbor::encode(&n);
+    if out == bytes {
+        None
+    } else {
+        Some(out)
+    }
+}
+
+/// The same element arriving another way: decoded from its own bytes, decoded from the legacy encoding of its bytes
+/// (nested sets untagged), read from its JSON. A copy counts only if it serializes to exactly the element's bytes,
+/// i.e. it is the same element by the only observable that matters for "emitted twice".
+fn provenance_copies<E>(e: &E, elem_bytes: fn(&E) -> Vec<u8>, from_bytes: fn(Vec<u8>) -> Option<E>, to_json: &dyn Fn(&E) -> Option<String>, from_json: fn(&str) -> Option<E>, raw_bytes: &dyn Fn(&E) -> Option<Vec<u8>>) -> Vec<(E, &'static str)> {
+    let want = elem_bytes(e);
+    let mut out: Vec<(E, &'static str)> = Vec::new();
+    if let Some(raw) = raw_bytes(e) {
+        if let Ok(Some(c)) = catch(|| from_bytes(raw.clone())) {
+            if elem_bytes(&c) == want {
+                out.push((c, "from_bytes"));
+            }
+        }
+        if let Some(legacy) = legacy_encoding(&raw) {
+            if let Ok(Some(c)) = catch(|| from_bytes(legacy)) {
+                if elem_bytes(&c) == want {
+                    out.push((c, "from_legacy_bytes"));
+                }
+            }
+        }
+    }
+    if let Some(j) = to_json(e) {
+        if let Ok(Some(c)) = catch(|| from_json(&j)) {
+            if elem_bytes(&c) == want {
+                out.push((c, "from_json"));
+            }
+        }
+    }
+    out
 }
 
 fn emitted_elements(name: &str, bytes: &[u8]) -> Result<Vec<Vec<u8>>, Failure> {
@@ -46,8 +94,20 @@ fn emitted_elements(name: &str, bytes: &[u8]) -> Result<Vec<Vec<u8>>, Failure> {
     Ok(items.iter().map(|x| bytes[x.start..x.end].to_vec()).collect())
 }
 
-fn check_set<S, E>(ctx: &mut Ctx, ops: &SetOps<S, E>, pool: &[E], hist: &[usize], route: usize, tagged: bool) -> CaseResult {
+fn check_set<S, E>(ctx: &mut Ctx, ops: &SetOps<S, E>, pool: &[E], hist: &[usize], route: usize, tagged: bool, prov: &[usize]) -> CaseResult {
     let name = ops.name;
+    // every pool element in the forms it can arrive in (index 0: as constructed)
+    let elem_json = ops.elem_json;
+    let copies: Vec<Vec<(E, &'static str)>> = pool
+        .iter()
+        .map(|e| {
+            provenance_copies(e, ops.elem_bytes, ops.elem_from_bytes, &|x: &E| elem_json(x).ok(), ops.elem_from_json, &|x: &E| {
+                // element bytes as CBOR; a type whose elem_bytes is not its own to_bytes (key hashes) has no byte route
+                Some((ops.elem_bytes)(x))
+            })
+        })
+        .collect();
+    let mut mixed = false;
     // model: insertion-ordered set of element encodings
     let mut model: Vec<Vec<u8>> = Vec::new();
     let enc: Vec<Vec<u8>> = pool.iter().map(|e| (ops.elem_bytes)(e)).collect();
@@ -57,7 +117,14 @@ fn check_set<S, E>(ctx: &mut Ctx, ops: &SetOps<S, E>, pool: &[E], hist: &[usize]
             let mut s = (ops.new)();
             for (step, i) in hist.iter().enumerate() {
                 let was_new = !model.contains(&enc[*i]);
-                let got = catch(|| (ops.add)(&mut s, &pool[*i])).map_err(|p| Failure::new(format!("sets/add-panic/{}", name), p.msg))?;
+                // this occurrence arrives as constructed, or as one of the element's other forms
+                let k = prov.get(step).copied().unwrap_or(0) % (copies[*i].len() + 1);
+                let elem: &E = if k == 0 { &pool[*i] } else { &copies[*i][k - 1].0 };
+                if k != 0 {
+                    mixed = true;
+                    ctx.label(&format!("set-element-arrives:{}", copies[*i][k - 1].1));
+                }
+                let got = catch(|| (ops.add)(&mut s, elem)).map_err(|p| Failure::new(format!("sets/add-panic/{}", name), p.msg))?;
                 if was_new {
                     model.push(enc[*i].clone());
                 }
@@ -72,7 +139,21 @@ fn check_set<S, E>(ctx: &mut Ctx, ops: &SetOps<S, E>, pool: &[E], hist: &[usize]
                     model.push(enc[*i].clone());
                 }
             }
-            let items: Vec<cbor::Node> = hist.iter().map(|i| cbor::parse_document(&enc[*i]).expect("element bytes")).collect();
+            // a repeated element may come in its legacy encoding (nested sets untagged) if that decodes to the same element
+            let items: Vec<cbor::Node> = hist
+                .iter()
+                .enumerate()
+                .map(|(step, i)| {
+                    let legacy_ok = copies[*i].iter().any(|c| c.1 == "from_legacy_bytes");
+                    if legacy_ok && prov.get(step).copied().unwrap_or(0) % 2 == 1 {
+                        if let Some(l) = legacy_encoding(&enc[*i]) {
+                            mixed = true;
+                            return cbor::parse_document(&l).expect("legacy element bytes");
+                        }
+                    }
+                    cbor::parse_document(&enc[*i]).expect("element bytes")
+                })
+                .collect();
             let arr = cbor::array(items);
             let bytes = cbor::encode(&if tagged { cbor::tag(258, arr) } else { arr });
             match catch(|| (ops.from_bytes)(bytes.clone())).map_err(|p| Failure::new(format!("sets/from_bytes-panic/{}", name), p.msg))? {
@@ -129,6 +210,9 @@ fn check_set<S, E>(ctx: &mut Ctx, ops: &SetOps<S, E>, pool: &[E], hist: &[usize]
             }
         }
     }
+    if mixed {
+        ctx.label("history:element-forms-mixed");
+    }
     if repeat_after_other {
         ctx.label("history:repeat-after-other-element");
         ctx.nontrivial(fp64(format!("{}|{}|{}|{:?}|{:?}", name, route, tagged, hist, enc.iter().map(|e| fp64(e)).collect::<Vec<_>>()).as_bytes()));
@@ -150,6 +234,24 @@ macro_rules! set_ops {
             from_json: |j| $S::from_json(j).map_err(|e| format!("{:?}", e)),
             elem_bytes: |e| e.to_bytes(),
             elem_json: |e| e.to_json().map_err(|e| format!("{:?}", e)),
+            elem_from_bytes: |b| $E::from_bytes(b).ok(),
+            elem_from_json: |j| $E::from_json(j).ok(),
+        }
+    };
+    ($S:ident, $E:ident, $name:expr, no_elem_from_json) => {
+        SetOps::<$S, $E> {
+            name: $name,
+            new: || $S::new(),
+            add: |s, e| s.add(e),
+            len: |s| s.len(),
+            to_bytes: |s| s.to_bytes(),
+            from_bytes: |b| $S::from_bytes(b).map_err(|e| format!("{:?}", e)),
+            to_json: |s| s.to_json().map_err(|e| format!("{:?}", e)),
+            from_json: |j| $S::from_json(j).map_err(|e| format!("{:?}", e)),
+            elem_bytes: |e| e.to_bytes(),
+            elem_json: |e| e.to_json().map_err(|e| format!("{:?}", e)),
+            elem_from_bytes: |b| $E::from_bytes(b).ok(),
+            elem_from_json: |_j| None,
         }
     };
 }
@@ -178,6 +280,7 @@ fn sets(ctx: &mut Ctx, tape: &[u8]) -> CaseResult {
     let tagged = t.bool();
     let pool_n = 1 + t.choose(4);
     let hist_len = 1 + t.choose(10);
+    let prov: Vec<usize> = (0..hist_len).map(|_| t.choose(4)).collect();
     let mut g = Gen::new(content, 2, 3);
     g.cddl_ranges = true;
     macro_rules! run {
@@ -188,7 +291,7 @@ fn sets(ctx: &mut Ctx, tape: &[u8]) -> CaseResult {
                 return Ok(());
             }
             let hist: Vec<usize> = (0..hist_len).map(|_| t.choose(pool.len())).collect();
-            check_set(ctx, &set_ops!($S, $E, $name), &pool, &hist, route, tagged)
+            check_set(ctx, &set_ops!($S, $E, $name), &pool, &hist, route, tagged, &prov)
         }};
     }
     match which {
@@ -196,10 +299,11 @@ fn sets(ctx: &mut Ctx, tape: &[u8]) -> CaseResult {
         1 => {
             let pool: Vec<Ed25519KeyHash> = distinct_pool(&mut g, pool_n, key_hash_json, |e| e.to_bytes());
             let hist: Vec<usize> = (0..hist_len).map(|_| t.choose(pool.len())).collect();
-            let mut ops = set_ops!(Ed25519KeyHashes, Ed25519KeyHash, "Ed25519KeyHashes");
+            let mut ops = set_ops!(Ed25519KeyHashes, Ed25519KeyHash, "Ed25519KeyHashes", no_elem_from_json);
             // a hash exposes raw bytes; inside the set it is a CBOR byte string
             ops.elem_bytes = |e| cbor::encode(&cbor::bytes(&e.to_bytes()));
-            check_set(ctx, &ops, &pool, &hist, route, tagged)
+            ops.elem_from_bytes = |b| cbor::parse_document(&b).ok().and_then(|n| n.as_bytes().map(|x| x.to_vec())).and_then(|raw| Ed25519KeyHash::from_bytes(raw).ok());
+            check_set(ctx, &ops, &pool, &hist, route, tagged, &prov)
         }
         2 => run!(Credentials, Credential, "Credentials", credential),
         3 => run!(Certificates, Certificate, "Certificates", certificate),
@@ -241,10 +345,18 @@ fn witness_set_case(ctx: &mut Ctx, tape: &[u8]) -> CaseResult {
         0 => {
             let pool: Vec<NativeScript> = distinct_pool(&mut g, 1 + t.choose(3), native_script, |e| e.to_bytes());
             let hist: Vec<usize> = (0..hist_len).map(|_| t.choose(pool.len())).collect();
+            // the same script may arrive as constructed, decoded from bytes, or read from JSON
+            let copies: Vec<Vec<(NativeScript, &'static str)>> = pool.iter().map(|e| provenance_copies(e, |x| x.to_bytes(), |b| NativeScript::from_bytes(b).ok(), &|x: &NativeScript| x.to_json().ok(), |j| NativeScript::from_json(j).ok(), &|x: &NativeScript| Some(x.to_bytes()))).collect();
             let mut l = NativeScripts::new();
             let mut model: Vec<Vec<u8>> = Vec::new();
             for i in &hist {
-                l.add(&pool[*i]);
+                let k = t.choose(4) % (copies[*i].len() + 1);
+                if k == 0 {
+                    l.add(&pool[*i]);
+                } else {
+                    ctx.label(&format!("witness-set-element-arrives:{}", copies[*i][k - 1].1));
+                    l.add(&copies[*i][k - 1].0);
+                }
                 let b = pool[*i].to_bytes();
                 if !model.contains(&b) {
                     model.push(b);
